@@ -76,8 +76,6 @@ def classify(case, detail):
     what = detail.get("what", "")
     if "setop_first_branch_sourceless_item" in feats and _retargeted_only(detail):
         return "K-union-literal@C02"
-    if d == "oracle" and what == "column pairs differ" and any("case when" in e[1] for e in detail.get("extra") or []):
-        return "K-oracle-case-alias@C02"
     if d == "clickhouse" and "explicit_view_columns" in feats and _retargeted_only(detail):
         return "K-clickhouse-view-collist@C02"
     if d == "clickhouse" and what == "tables differ" and not (set(detail["reported"][0]) - set(detail["expected"][0])) and detail["reported"][1] == detail["expected"][1]:
@@ -109,12 +107,28 @@ def ir_features(stmt):
             for b in q.branches:
                 q_(b)
         else:
-            for g in q.frm:
+            for gi, g in enumerate(q.frm):
+                if g.joins and gi < len(q.frm) - 1:
+                    feats.add("comma_after_join")
                 for f in [g.first] + [j.item for j in g.joins]:
                     if isinstance(f, ir.Derived):
                         q_(f.q)
+            for it in q.items:
+                if isinstance(it.e, ir.Case) and it.alias and not it.as_kw:
+                    feats.add("case_alias_noas")
+            if isinstance(q.where, ir.PParen) and _has_sub(q.where):
+                feats.add("paren_where_subquery")
             for p in (q.where, q.having):
                 _p(p)
+
+    def _has_sub(p):
+        if isinstance(p, (ir.InSub, ir.CmpSub, ir.Exists)):
+            return True
+        if isinstance(p, ir.BoolOp):
+            return _has_sub(p.l) or _has_sub(p.r)
+        if isinstance(p, (ir.PParen, ir.Not)):
+            return _has_sub(p.p)
+        return False
 
     def _p(p):
         if p is None:
